@@ -90,14 +90,14 @@ def run(chk, replay=None):
         asm("main1", MAIN, OWNVAL=33)
         asm("main2", MAIN, OWNVAL=44)
         scen = []
-        for relink in ("lib", "exe"):
+        for relink in ("lib", "exe", "lib-symlink"):
             for threads in ([], ["--threads=1"]):
                 for fail in (None, "written:error"):
                     scen.append((relink, threads, fail, False))
         if shutil.which("setpriv") and os.geteuid() == 0:
             scen.append(("lib", [], None, True))
         if chk.tier == "quick":
-            scen = scen[:4] + scen[4:6] + scen[-1:]
+            scen = scen[:4] + scen[4:6] + [x for x in scen if x[0] == "lib-symlink" and not x[2]] + scen[-1:]
         for si, (relink, threads, fail, ro) in enumerate(scen):
             d = f"{top}/s{si}"
             os.makedirs(d)
@@ -105,7 +105,11 @@ def run(chk, replay=None):
             for f in ("lib1.o", "lib2.o", "main1.o", "main2.o"):
                 shutil.copy(f"{top}/{f}", f"{d}/{f}")
                 os.chmod(f"{d}/{f}", 0o644)
-            rc, out = link(["lib1.o", "-shared", "-o", "libv.so"], d)
+            if relink == "lib-symlink":      # the -o path is a symlink to the versioned file the process has mapped
+                rc, out = link(["lib1.o", "-shared", "-o", "libv.so.1.0"], d)
+                os.symlink("libv.so.1.0", f"{d}/libv.so")
+            else:
+                rc, out = link(["lib1.o", "-shared", "-o", "libv.so"], d)
             rc2, out2 = link(["main1.o", "libv.so", "-o", "prog", "--dynamic-linker", interp], d)
             if rc or rc2:
                 chk.tie_break("the scenario's initial link failed", out + out2)
@@ -122,7 +126,7 @@ def run(chk, replay=None):
             if fail:
                 os.environ["WILD_VERIF_POINT"] = fail
             try:
-                if relink == "lib":
+                if relink in ("lib", "lib-symlink"):
                     rrc, rout = link(["lib2.o", "-shared", "-o", "libv.so"] + threads, d, as_nobody=ro)
                 else:
                     rrc, rout = link(["main2.o", "libv.so", "-o", "prog", "--dynamic-linker", interp] + threads, d, as_nobody=ro)
@@ -161,7 +165,7 @@ def run(chk, replay=None):
                     chk.violation(f"relinking the {relink} ({' '.join(threads) or 'default threads'}{', failing at ' + fail if fail else ''}) while it is in use changed what the running process sees: "
                                   f"{list(first)} before, {list(second)} after (process exit {prc})", rep)
             if rrc == 0 and not ro:
-                exp = bytes([222 if relink == "lib" else 111, 44 if relink == "exe" else 33])
+                exp = bytes([222 if relink != "exe" else 111, 44 if relink == "exe" else 33])
                 if fresh == exp:
                     stats["new_process_sees_new"] += 1
                 else:
@@ -172,7 +176,7 @@ def run(chk, replay=None):
         shutil.rmtree(top, ignore_errors=True)
     chk.cov.update({
         "evaluations": stats["scenarios"], "distinct_nontrivial": stats["scenarios"],
-        "rule": "relink {the mapped shared library, the running executable} x {default threads, --threads=1} x {success, error after the write phase}, default write modes, plus the "
+        "rule": "relink {the mapped shared library, the same through a symlink, the running executable} x {default threads, --threads=1} x {success, error after the write phase}, default write modes, plus the "
                 "unwritable-directory replay as uid 65534; observation = constants in the mapped/executing text before and after, and what a fresh process sees",
         "stats": stats, "details": details,
     })
